@@ -1,6 +1,7 @@
 (* C06 - concrete runs (vm_compute): the programs that refuted the property on the code before the fixes
    (Pinned.v) on the current Mech; programs that re-use variable names across frames (conforming); and
-   the programs on which the name-keyed bookkeeping of the CURRENT code loses an object (findings). *)
+   the programs on which the name-keyed bookkeeping of the CURRENT code loses an object (finding
+   C06-shadowed-object-never-destroyed); the former witness of C06-redeclared-member-flag-stale (conforming now). *)
 From Coq Require Import List Arith Bool.
 Import ListNotations.
 From Cb Require Import C06.Model C06.Pinned.
@@ -73,8 +74,11 @@ Definition wshadow : prog := [blk [SObj 0 TR 1; SBlock (blk [SObj 0 TR 2; SMark 
 Definition wshadowq : prog := [blk [SObj 0 TR 1; SBlock (blk [SObj 0 TQ 2; SMark 1]); SMark 2]].
 (* R x0(1); R x0(2); *)
 Definition wredecl : prog := [blk [SObj 0 TR 1; SObj 0 TR 2]].
-(* for (2) { W x0(1); }  - the member flag survives the re-declaration *)
+(* for (2) { W x0(1); }  - former finding C06-redeclared-member-flag-stale (the flag of the member variable
+   survived the re-declaration; a registration now resets it) *)
 Definition wmember : prog := [blk [SLoop 2 (blk [SObj 0 TW 1])]].
+(* { W x0(1); } { W x0(2); } mark 9 *)
+Definition wmember_sib : prog := [blk [SBlock (blk [SObj 0 TW 1]); SBlock (blk [SObj 0 TW 2]); SMark 9]].
 (* W objects outside loops, one per activation: fine *)
 Definition wmember_ok : prog := [blk [SObj 0 TW 1; SCall 1; SMark 1]; blk [SObj 0 TW 2; SIf CDepth (blk [SCall 1]) BNil]].
 
@@ -95,9 +99,26 @@ Proof. split; vm_compute; reflexivity. Qed.
 
 Lemma wmember_run :
   mrun 20 wmember 0 = Some (true, mk [] [[]] [[]]
-     [ECtor TR 51; ECtor TW 1; EDtor TW 1; EDtor TR 51; ECtor TR 51; ECtor TW 1; EDtor TW 1]) /\
+     [ECtor TR 51; ECtor TW 1; EDtor TW 1; EDtor TR 51; ECtor TR 51; ECtor TW 1; EDtor TW 1; EDtor TR 51]) /\
   srun 20 wmember 0 = Some (true,
      [ECtor TR 51; ECtor TW 1; EDtor TW 1; EDtor TR 51; ECtor TR 51; ECtor TW 1; EDtor TW 1; EDtor TR 51]).
+Proof. split; vm_compute; reflexivity. Qed.
+
+Lemma wmember_wf : wf_prog wmember = true /\ wf_prog wmember_sib = true /\ wf_prog wmember_ok = true.
+Proof. repeat split; vm_compute; reflexivity. Qed.
+
+Lemma wmember_sib_run : exists st, mrun 20 wmember_sib 0 = Some (true, st) /\ srun 20 wmember_sib 0 = Some (true, tr st) /\
+  tr st = [ECtor TR 51; ECtor TW 1; EDtor TW 1; EDtor TR 51; ECtor TR 52; ECtor TW 2; EDtor TW 2; EDtor TR 52; EMark 9].
+Proof. eexists; split; [vm_compute; reflexivity|]. split; vm_compute; reflexivity. Qed.
+
+(* a W object shadowed by a W object of an inner block: outside wf_prog, both sub-objects of the outer one
+   are lost (finding C06-shadowed-object-never-destroyed) *)
+Definition wshadoww : prog := [blk [SObj 0 TW 1; SBlock (blk [SObj 0 TW 2]); SMark 9]].
+
+Lemma wshadoww_run :
+  wf_prog wshadoww = false /\
+  mrun 20 wshadoww 0 = Some (true, mk [] [[]] [[]]
+     [ECtor TR 51; ECtor TW 1; ECtor TR 52; ECtor TW 2; EDtor TW 2; EDtor TR 52; EMark 9]).
 Proof. split; vm_compute; reflexivity. Qed.
 
 Lemma wmember_ok_run : exists st, mrun 30 wmember_ok 1 = Some (true, st) /\ srun 30 wmember_ok 1 = Some (true, tr st) /\
